@@ -1983,6 +1983,87 @@ pub mod verif_hooks
 		(result, observe(analyzer))
 	}
 
+	fn named(name: &str, id: u32) -> Identifier
+	{
+		Identifier {
+			name: name.to_string(),
+			..identifier(id)
+		}
+	}
+
+	/// Declare a name (kind 0 constant, 1 variable, 2 parameter, 3 member,
+	/// 4 function, 5 structure) in a state given by its named containers
+	/// (name, id, is_structure), variable layers, functions and next
+	/// resolution id; returns the result and a dump of the state afterwards.
+	pub fn declare_step(
+		containers: &[(String, u32, bool)],
+		layers: &[Vec<(String, u32)>],
+		functions: &[(String, u32)],
+		next_resolution_id: u32,
+		kind: usize,
+		name: &str,
+	) -> (Result<u32, Error>, String)
+	{
+		let mut analyzer = build(&[]);
+		analyzer.containers = containers
+			.iter()
+			.map(|(name, id, is_structure)| Container {
+				identifier: named(name, *id),
+				contained_ids: Default::default(),
+				depth: None,
+				is_structure: *is_structure,
+			})
+			.collect();
+		analyzer.variable_stack = layers
+			.iter()
+			.map(|layer| layer.iter().map(|(n, id)| named(n, *id)).collect())
+			.collect();
+		analyzer.function_list =
+			functions.iter().map(|(n, id)| named(n, *id)).collect();
+		analyzer.resolution_id = next_resolution_id;
+		let identifier = named(name, 0);
+		let result = match kind
+		{
+			0 => analyzer.declare_constant(identifier),
+			1 => analyzer.declare_variable(identifier),
+			2 => analyzer.declare_parameter(identifier),
+			3 => analyzer.declare_member(identifier),
+			4 => analyzer.declare_function(identifier),
+			_ => analyzer.declare_struct(identifier),
+		};
+		let show = |x: &Identifier| format!("{}:{}", x.name, x.resolution_id);
+		let containers: Vec<String> = analyzer
+			.containers
+			.iter()
+			.map(|x| {
+				format!(
+					"{}:{}:{}",
+					show(&x.identifier),
+					if x.is_structure { 1 } else { 0 },
+					x.contained_ids.len()
+				)
+			})
+			.collect();
+		let layers: Vec<String> = analyzer
+			.variable_stack
+			.iter()
+			.map(|layer| {
+				let ids: Vec<String> = layer.iter().map(show).collect();
+				if ids.is_empty() { "-".to_string() } else { ids.join(",") }
+			})
+			.collect();
+		let functions: Vec<String> =
+			analyzer.function_list.iter().map(show).collect();
+		let dump = format!(
+			"C {} | L {} | F {} | N {}",
+			containers.join(" "),
+			layers.join("/"),
+			functions.join(" "),
+			analyzer.resolution_id
+		);
+		(result.map(|x| x.resolution_id), dump)
+	}
+
 	pub fn container_depths(
 		containers: &[ContainerState],
 	) -> Vec<ContainerState>
